@@ -363,7 +363,7 @@ def oracle(case):
     px = [[i, j, [r["tab"][(i, j)][c] for c in cols_req]] for (i, j) in keys]
     off = [sum(1 for (i, _) in keys if i < b) for b in range(n + 1)]
     exp = {"symm": r["symm"], "cols": [[c, r["bits"][c]] for c in cols_req], "off": off, "px": px,
-           "nnz": len(px), "bins": G.expected_bins(r["ax"])}
+           "nnz": len(px), "bins": G.expected_bins(r["ax"]), "bins_extra": {}}      # extra bin columns of the inputs are not transferred
     if "count" in cols_req:
         if agg["count"] == "sum":
             # "its recorded total is the sum of the input totals" (leaves of the merge tree, with multiplicity)
@@ -919,6 +919,7 @@ def history_pass(ctx, root):
             mod = G.parse_obs(next(mvals))
             if isinstance(mod, dict):
                 mod["bins"] = G.expected_bins(case["inputs"][0]["ax"])
+                mod["bins_extra"] = {}
                 if case.get("via") != "cli":
                     mod["caller_args_unchanged"] = True
             ctx.compare("merge_coolers (history pass)", case, got, mod)
@@ -1076,6 +1077,7 @@ def run(ctx):
             mod = G.parse_obs(mo)
             if isinstance(mod, dict):
                 mod["bins"] = G.expected_bins(case["inputs"][first_leaf(case)]["ax"])     # theorem: the output carries the first input's axes
+                mod["bins_extra"] = {}
             if isinstance(mod, dict) and isinstance(exp, dict):
                 for k in ("kept", "bins_cols"):
                     if k in exp:
